@@ -111,7 +111,7 @@ def re_tokens(a) -> list[str]:
             return ["e"] if k == "seqs" else ["n", "e"]
         if len(xs) == 1:
             return re_tokens(xs[0])
-        return ["s" if k == "seqs" else "|"] + re_tokens(xs[0]) + re_tokens((k, xs[1:]))
+        return ["s" if k == "seqs" else "v"] + re_tokens(xs[0]) + re_tokens((k, xs[1:]))
     if k == "lit":
         return [f"l{a[1]}"]
     if k == "any":
@@ -183,8 +183,13 @@ def read_names(path: Path):
                 if an is None or au is None:
                     raise Unsupported("atom without name/useatomname")
                 atoms[an] = au
+            elif ch.tag in ("residue", "name", "useresname", "useatomname"):
+                raise Unsupported(f"nested <{ch.tag}> in <residue>")
             else:
-                raise Unsupported(f"element <{ch.tag}> in <residue>")
+                # any other element (<exclud> in CHARMM/PEOEPB.names): the SAX handler stores no
+                # text for it; it must not contain elements the handler reacts to
+                if any(d.tag in ("residue", "atom", "useresname", "useatomname") for d in ch.iter() if d is not ch):
+                    raise Unsupported(f"<{ch.tag}> contains handled elements")
         if name is None:
             raise Unsupported("residue section without <name>")
         sections.append((name, use, list(atoms.items())))
@@ -210,10 +215,15 @@ def gen_ff(name: str) -> str:
         f"namespace P2P.Gen.FF_{name}",
         "open P2P P2P.FF P2P.Regex",
         "",
-        "def rows : List Row := [",
+        "",
     ]
-    out.append(",\n".join(f"  ⟨{lstr(r)}, {lstr(a)}, {ldec(q)}, {ldec(rad)}, {lstr(g)}⟩" for r, a, q, rad, g in rows))
-    out.append("]")
+    out.pop()  # (placeholder removed below)
+    chunks = [rows[i : i + 40] for i in range(0, len(rows), 40)]
+    for ci, ch in enumerate(chunks):
+        out.append(f"def rows{ci} : List Row := [")
+        out.append(",\n".join(f"  ⟨{lstr(r)}, {lstr(a)}, {ldec(q)}, {ldec(rad)}, {lstr(g)}⟩" for r, a, q, rad, g in ch))
+        out.append("]")
+    out.append("def rows : List Row := " + (" ++ ".join(f"rows{ci}" for ci in range(len(chunks))) or "[]"))
     out.append("")
     out.append("def sections : List Section := [")
     secs = []
